@@ -45,6 +45,12 @@ func fnKey(f *ssa.Function) string {
 }
 
 func ifaceKey(recv types.Type, m *types.Func) string {
+	if tp, ok := recv.(*types.TypeParam); ok {
+		// a method of a type parameter: named after the constraint interface (generalheap.Comparable.CompareTo)
+		if n, ok := tp.Constraint().(*types.Named); ok && n.Obj().Pkg() != nil {
+			return n.Obj().Pkg().Path() + "." + n.Obj().Name() + "." + m.Name()
+		}
+	}
 	if n, ok := recv.(*types.Named); ok && n.Obj().Pkg() != nil {
 		return n.Obj().Pkg().Path() + "." + n.Obj().Name() + "." + m.Name()
 	}
@@ -75,7 +81,9 @@ func (t *FnTrans) call(in ssa.Instruction, c *ssa.CallCommon, res ssa.Value) {
 		recvT := t.resolve(c.Value.Type())
 		key = ifaceKey(recvT, c.Method)
 		recv := t.val(c.Value)
-		t.oblige("nil", not(eq(t.termOf(recv, c.Value), "0")), "method call on nil interface")
+		if t.sortOf(recvT) == "Int" { // (a receiver of an uninstantiated type parameter has an uninterpreted sort: no nil test)
+			t.oblige("nil", not(eq(t.termOf(recv, c.Value), "0")), "method call on nil interface")
+		}
 		args = append(args, recv)
 		argTypes = append(argTypes, recvT)
 		if n, ok := recvT.(*types.Named); ok && n.TypeArgs() != nil {
@@ -166,7 +174,9 @@ func (t *FnTrans) call(in ssa.Instruction, c *ssa.CallCommon, res ssa.Value) {
 		}
 	}
 	if ct == nil {
-		ct = t.eng.specs.Funcs[key]
+		if ct = t.eng.specs.Funcs[key+"@"+t.fn.Pkg.Pkg.Path()]; ct == nil { // assume-func-here of the calling package first
+			ct = t.eng.specs.Funcs[key]
+		}
 		// a sequential proof (opt sequential: no other goroutine) uses the callee's sequential variant, if it has one
 		if t.ct != nil && t.ct.Opts["sequential"] != "" {
 			if sv := t.eng.specs.Funcs[key+"#sequential"]; sv != nil && sv.Opts["sequential"] != "" {
